@@ -18,6 +18,7 @@ import io
 import json
 import random
 import re
+import shutil
 
 from .. import run as R
 from ..harness import add_violation, bump, case_result
@@ -78,6 +79,9 @@ def spelling_ok(s, fmt, role):
         return not any(c in s for c in "\t\r\\") and s != ""
     if fmt in ("xtab", "nidx", "pprint"):
         return s != "" and not any(c in s for c in " \t\r") and s != "-" and not s.startswith("#")
+    if fmt == "json":
+        # input only: JSON text carries valid UTF-8; control characters travel as escapes, which is C01's subject
+        return role == "in" and _json_ok(s)
     return False
 
 
@@ -142,7 +146,8 @@ JSON_NUM = re.compile(r"-?(0|[1-9][0-9]*)(\.[0-9]+)?([eE][+-]?[0-9]+)?$")
 # ------------------------------------------------------------------------------------------
 # writers for inputs, parsers for outputs (values are under the generator's control)
 
-IFLAG = {"dkvp": ["--idkvp"], "csv": ["--icsv"], "tsv": ["--itsv"], "xtab": ["--ixtab"], "nidx": ["--inidx", "--ifs", "space"]}
+IFLAG = {"dkvp": ["--idkvp"], "csv": ["--icsv"], "tsv": ["--itsv"], "xtab": ["--ixtab"], "nidx": ["--inidx", "--ifs", "space"],
+         "json": ["--ijson"]}
 OFLAG = {"dkvp": ["--odkvp"], "csv": ["--ocsv"], "tsv": ["--otsv"], "xtab": ["--oxtab"], "nidx": ["--onidx", "--ofs", "space"],
          "pprint": ["--opprint"]}
 
@@ -309,7 +314,15 @@ def catalogue(rng, N, i):
         (["nest", "--ivar", ";", "-f", o], "nest-implode"),
         (["nest", "--explode", "--values", "--across-records", "-f", o, "--nested-fs", ";"], "nest-explode-records"),
         (["nest", "--explode", "--values", "--across-fields", "-f", o, "--nested-fs", ";"], "nest-explode-fields"),
-        (["having-fields", "--at-least", x], "having-fields"), (["having-fields", "--any-defined", f"{x},{y}"], "having-fields-any"),
+        (["having-fields", "--at-least", x], "having-fields"), (["having-fields", "--any-matching", "^" + re.escape(x) + "$"], "having-fields-any"),
+        (["having-fields", "--none-matching", "^nosuchfield"], "having-fields-none"),
+        # readers of every value / carriers that the first catalogue lacked (audit C03-6)
+        (["fill-empty"], "fill-empty"), (["fill-empty", "-v", "X", "-S"], "fill-empty-v"), (["uniq", "-a"], "uniq-a"), (["uniq", "-a", "-c"], "uniq-a-c"),
+        (["sparsify"], "sparsify"), (["remove-empty-columns"], "remove-empty-columns"),
+        (["reshape", "-i", o, "-o", f"rk{i},rv{i}"], "reshape-w2l"), (["sort-within-records"], "sort-within-records"),
+        (["sort-within-records", "-r"], "sort-within-records-r"), (["template", "--fill-with", "T", "-f", ",".join(N["all"])], "template-all"),
+        (["gap", "-n", "2"], "gap"), (["split", "-n", "3", "-v"], "split-v"), (["join", "--ur", "-j", idf, "-f", "left.in"], "join"),
+        (["join", "--ur", "--ul", "--lp", "L_", "-j", idf, "-f", "left.in"], "join-ul"),
         (["cut", "-x", "-f", o], "cut-x"), (["cut", "-x", "-r", "-f", "^zzz"], "cut-x-r"),
         (["grep", "-v", "NOSUCHSTRINGXYZ"], "grep-v"), (["grep", "-i", "-v", "nosuchstringxyz"], "grep-i"),
         (["decimate", "-n", "2"], "decimate"), (["repeat", "-n", "2"], "repeat"), (["tee", "tee2.out"], "tee"),
@@ -336,20 +349,50 @@ def value_class(v):
 
 
 B_NAMES = ["ba", "bb", "bc", "bd", "be", "bf"]
+W_NAMES = [f"w{i}" for i in range(1, 13)]
+AFLAGS = FLAGS + ["--ofmt"]
+# verbs/statements that the documentation lets fail on data they cannot use (non-numeric input to a statistic, a float as
+# a map key); any other non-zero exit of a chain of readers is reported
+MAY_REJECT = {"fraction", "fraction-pc", "merge-fields-k", "put-mapkey"}
+ONCE_ONLY = ("put-unset-other", "cut-x", "rename", "rename-r", "nest-explode-fields", "emit-mapexcept", "reshape-w2l", "nest-implode",
+             "nest-explode-records")
+HETEROGENEOUS = ("nest-explode-fields", "sparsify", "join", "join-ul")
+_INFNANISH = re.compile(r"[+-]?(inf|infinity|nan)$", re.I)
+
+
+def ofmt_verbatim(v):
+    """Under --ofmt (documented: applied to floats): True if the value is certainly not a float, so it must stay verbatim;
+    None if this monitor declines (floats, and spellings whose type is C06's subject)."""
+    if not re.search(r"[0-9]", v) and not _INFNANISH.match(v.strip()):
+        return True
+    if _INT_RE.match(v):
+        u = v.lstrip("+-")
+        val = numeric_value(v)
+        if val is None:
+            return None
+        if u[:2].lower() in ("0x", "0b", "0o"):
+            return True if abs(val) < 2 ** 64 else None
+        if len(u) > 1 and u[0] == "0" and re.search(r"[89]", u):
+            return None
+        return True if -2 ** 63 <= val < 2 ** 63 else None
+    return None
 
 
 def chain_case(case):
     rng = random.Random(case["seed"])
     tier = case["tier"]
-    ifmt = case.get("ifmt") or rng.choice(["dkvp", "dkvp", "csv", "tsv", "xtab", "nidx"])
+    ifmt = case.get("ifmt") or rng.choice(["dkvp", "dkvp", "csv", "tsv", "xtab", "nidx", "json"])
     ofmt = case.get("ofmt") or rng.choice(["dkvp", "dkvp", "csv", "tsv", "xtab", "nidx", "pprint"])
-    flag = case.get("flag") if case.get("flag") is not None else rng.choice(FLAGS)
+    flag = case.get("flag") if case.get("flag") is not None else rng.choice(AFLAGS)
     pool = [s for s in case["spellings"] if spelling_ok(s, ifmt, "in") and spelling_ok(s, ofmt, "out")]
     res = case_result(_h("a", case["seed"], ifmt, ofmt, flag), nontrivial=False)
     nb = rng.randint(3, 6)
-    nrec = rng.choice([1, 2, 3, 5, 8, 13])
-    bnames = B_NAMES[:nb]
+    nrec = case.get("nrec") or rng.choice([1, 2, 3, 5, 8, 13])
+    wide = rng.random() < 0.3          # 8 + nb - 3 fields otherwise (8..11): the wide profile crosses the 12-field key index
+    nwide = rng.choice([1, 2, 3, 12]) if wide else 0
+    bnames = B_NAMES[:nb] + W_NAMES[:nwide]
     layout = ["id", bnames[0], "g", bnames[1], "k", bnames[2], "t", "o"] + bnames[3:]
+    batch = rng.choice([None, None, None, "1", "2"]) if nrec < 100 else rng.choice([None, "500", "7"])
     recs = []
     for r in range(nrec):
         rec = []
@@ -375,96 +418,162 @@ def chain_case(case):
         names = {f: str(i + 1) for i, f in enumerate(layout)}
     else:
         names = {f: f for f in layout}
-    xs = rng.sample(bnames, 2)
+    xs = rng.sample(bnames[:nb], 2)
     N = {"x": names[xs[0]], "y": names[xs[1]], "g": names["g"], "k": names["k"], "t": names["t"], "o": names["o"],
-         "id": names["id"]}
+         "id": names["id"], "all": [names[f] for f in layout]}
     nverbs = rng.choice([1, 1, 2, 3, 4]) if tier == "thorough" else rng.choice([1, 2, 3])
     chain = []
     tags = []
+    rect_out = ofmt in ("csv", "tsv", "pprint", "nidx")
     for i in range(nverbs):
         a, tag = rng.choice(catalogue(rng, N, i))
-        if tag in ("put-unset-other", "cut-x", "rename", "rename-r", "nest-explode-fields", "emit-mapexcept") and \
-                any(tg in tags for tg in ("put-unset-other", "cut-x", "rename", "rename-r", "nest-explode-fields", "emit-mapexcept")):
+        if tag in ONCE_ONLY and any(tg in tags for tg in ONCE_ONLY):
             a, tag = (["cat"], "cat")      # the 'other' field can be removed/renamed only once
-        if tag == "nest-explode-fields" and ofmt in ("csv", "tsv", "pprint", "nidx"):
+        if tag in HETEROGENEOUS and rect_out:
             a, tag = (["cat"], "cat")      # makes records heterogeneous; rectangular outputs are C01/C02's subject
+        if tag == "gap" and ofmt not in ("dkvp", "nidx"):
+            a, tag = (["cat"], "cat")
+        if tag in ("join", "join-ul") and (ifmt == "nidx" or any(tg.startswith("join") for tg in tags)):
+            a, tag = (["cat"], "cat")      # NIDX: left and right fields share the positional names
+        if tag in ("template-all",) and any(tg in tags for tg in ("sort-within-records", "sort-within-records-r")):
+            a, tag = (["cat"], "cat")
         chain += (["then"] if chain else []) + a
         tags.append(tag)
-    stdin = write_input(ifmt, [[(k, v) for k, v in r] for r in recs])
-    argv = ["--seed", "7"] + ([flag] if flag else []) + IFLAG[ifmt] + OFLAG[ofmt] + chain
-    r = R.mlr(argv, stdin=stdin, env=ENV)
+    files = {}
+    if any(tg.startswith("join") for tg in tags):
+        # left file: every second id pairs; one left record has no partner.  Its non-key field has a name of its own.
+        left = [[(N["id"], f"r{r+1}"), ("lj", f"L{r+1}")] for r in range(0, nrec + 2, 2)]
+        files["left.in"] = _write_any(ifmt, left)
+    stdin = _write_any(ifmt, [[(k, v) for k, v in r] for r in recs])
+    fl = [] if not flag else (["--ofmt", "%.6lf"] if flag == "--ofmt" else [flag])
+    argv = ["--seed", "7"] + fl + (["--records-per-batch", batch] if batch else []) + IFLAG[ifmt] + OFLAG[ofmt] + chain
+    writes_files = any(tg in ("put-tee", "tee", "split-v") for tg in tags)
+    r = R.mlr(argv, stdin=stdin, env=ENV, files=files or None, keep_cwd=writes_files)
+    side = {}
+    if writes_files and r.cwd:
+        side = {k: v.decode("utf-8", "surrogateescape") for k, v in R.read_files(r.cwd).items()
+                if k in ("tee.out", "tee2.out") or k.startswith("split_")}
+        shutil.rmtree(r.cwd, ignore_errors=True)
     detail = {"argv": argv, "stdin": stdin, "env": ENV}
+    if files:
+        detail["files"] = files
     bump(res, "runs")
     bump(res, "fmt:" + ifmt + ">" + ofmt)
     bump(res, "flag:" + (flag or "default"))
+    if batch:
+        bump(res, "runs_with_records_per_batch")
+    if len(layout) >= 12:
+        bump(res, "runs_with_12_or_more_fields")
+    sig_base = {"monitor": "chain", "verbs": "+".join(sorted(set(tags))), "flag": flag or "default", "ifmt": ifmt, "ofmt": ofmt}
     if r.verdict in ("slow",):
         res["inconc"] += 1
         return res
-    if r.verdict != "exited" or r.rc != 0:
-        # the chain rejected the data (non-numeric value for a statistics verb, ...): outside the domain
-        res["skipped"] += 1
-        bump(res, "rejected:" + "+".join(sorted(set(tags)))[:60])
-        if r.crashed():
-            bump(res, "crashed_runs")
+    if r.verdict != "exited" or r.crashed():
+        kind = "crash" if r.crashed() else "hang"
+        add_violation(res, dict(sig_base, kind=kind), f"`mlr {' '.join(argv)}` on {nrec} small records: {kind} (verdict {r.verdict}, rc={r.rc}, "
+                      f"signal={r.signal}): {r.err.strip()[:200]}", dict(detail, got=r.err[:2000]))
+        return res
+    if r.rc != 0:
+        if set(tags) & MAY_REJECT:
+            # the chain rejected the data (non-numeric value for a statistics verb, ...): outside the domain
+            res["skipped"] += 1
+            bump(res, "rejected:" + "+".join(sorted(set(tags) & MAY_REJECT))[:60])
+            return res
+        add_violation(res, dict(sig_base, kind="chain-fails"), f"`mlr {' '.join(argv)}`: a chain of readers exits {r.rc}: {r.err.strip()[:200]}",
+                      dict(detail, got=r.err[:2000]))
         return res
     out = parse_output(ofmt, r.out)
-    sig_base = {"monitor": "chain", "verbs": "+".join(sorted(set(tags))), "flag": flag or "default", "ifmt": ifmt, "ofmt": ofmt}
     if out is None:
         add_violation(res, dict(sig_base, kind="unparseable-output"), f"output of {' '.join(chain)} is not well-formed {ofmt}",
                       dict(detail, got=r.out[:3000]))
         return res
     byid = {rec[0][1]: rec for rec in recs}
-    checked = 0
-    nontriv = False
-    for orec in out:
-        od = {}
-        for kk, vv in orec:
-            od.setdefault(kk, vv)
-        if ofmt == "nidx":
-            idv = next((v for _, v in orec if v in byid), None)
-        else:
-            idv = od.get(N["id"] if ifmt == "nidx" else "id")
-        if idv is None or idv not in byid:
-            # a record without a recognisable id (end-block emits etc.) carries nothing to compare
-            bump(res, "output_records_without_id")
+    st = {"checked": 0, "nontriv": False}
+    may_drop_empty = any(tg in ("sparsify", "remove-empty-columns") for tg in tags)
+    fills = [tg for tg in tags if tg in ("fill-empty", "fill-empty-v")]
+    reordering = any(tg.startswith("sort-within-records") for tg in tags)
+    positional = (ifmt == "nidx")
+
+    def judge(out, where):
+        for orec in out:
+            od = {}
+            for kk, vv in orec:
+                od.setdefault(kk, vv)
+            if ofmt == "nidx":
+                idv = next((v for _, v in orec if v in byid), None)
+            else:
+                idv = od.get(N["id"])
+            if idv is None or idv not in byid:
+                # a record without a recognisable id (end-block emits, unpaired left records) carries nothing to compare
+                bump(res, "output_records_without_id")
+                continue
+            irec = byid[idv]
+            ibys = []
+            for f, v in irec:
+                if f not in bnames:
+                    continue
+                exp = v
+                if v == "" and fills:
+                    exp = "N/A" if fills[0] == "fill-empty" else "X"     # fill-empty assigns exactly the empty values
+                ibys.append((names[f], exp, v))
+            if ofmt == "nidx":
+                vals = [v for _, v in orec]
+                pos = 0
+                ok = True
+                for kk, v, v0 in ibys:
+                    if v0 == "" and may_drop_empty:
+                        continue
+                    try:
+                        pos = vals.index(v, pos) + 1
+                    except ValueError:
+                        ok = False
+                        break
+                st["checked"] += len(ibys)
+                if not ok and not reordering and flag != "--ofmt":
+                    add_violation(res, dict(sig_base, kind="text", where=where), f"bystander value {v!r} of record {idv} is missing/changed/out of order "
+                                  f"in NIDX output after {' '.join(chain)}", dict(detail, expected=[v for _, v, _ in ibys], got=vals))
+                continue
+            okeys = [kk for kk, _ in orec]
+            for kk, v, v0 in ibys:
+                st["checked"] += 1
+                if noncanonical_number(v):
+                    st["nontriv"] = True
+                if kk not in od:
+                    if v0 == "" and may_drop_empty:
+                        continue
+                    add_violation(res, dict(sig_base, kind="lost", where=where), f"bystander field {kk} of record {idv} is missing after {' '.join(chain)}",
+                                  dict(detail, expected=v, got=orec))
+                elif od[kk] != v:
+                    if flag == "--ofmt" and not ofmt_verbatim(v):
+                        bump(res, "ofmt_values_not_judged")
+                        continue
+                    cls = value_class(v)
+                    add_violation(res, dict(sig_base, kind="text", cls=cls, where=where),
+                                  f"bystander {kk}={v!r} of record {idv} came out as {od[kk]!r} after {' '.join(chain)}"
+                                  f" ({ifmt}->{ofmt} {flag or 'default'}, {where})", dict(detail, expected=v, got=od[kk]))
+            if reordering:
+                continue
+            # "in its original position": every surviving input field except `o` (the one field the catalogue renames,
+            # moves, splits or removes) keeps its place relative to the others
+            inorder = [names[f] for f in layout if f != "o"]
+            want_order = [kk for kk in inorder if kk in od]
+            got_order = [kk for kk in okeys if kk in set(inorder)]
+            seen = set()
+            got_order = [kk for kk in got_order if not (kk in seen or seen.add(kk))]
+            if want_order != got_order:
+                add_violation(res, dict(sig_base, kind="order", where=where), f"fields of record {idv} changed relative order after {' '.join(chain)}",
+                              dict(detail, expected=want_order, got=got_order))
+
+    judge(out, "stdout")
+    for fname, text in sorted(side.items()):
+        fo = parse_output(ofmt, text)
+        if fo is None:
+            add_violation(res, dict(sig_base, kind="unparseable-output", where="file"), f"file {fname} written by {' '.join(chain)} is not "
+                          f"well-formed {ofmt}", dict(detail, got=text[:3000]))
             continue
-        irec = byid[idv]
-        ibys = [(names[f], v) for f, v in irec if f in bnames]
-        if ofmt == "nidx":
-            vals = [v for _, v in orec]
-            pos = 0
-            ok = True
-            for kk, v in ibys:
-                try:
-                    pos = vals.index(v, pos) + 1
-                except ValueError:
-                    ok = False
-                    break
-            checked += len(ibys)
-            if not ok:
-                add_violation(res, dict(sig_base, kind="text"), f"bystander value {v!r} of record {idv} is missing/changed/out of order "
-                              f"in NIDX output after {' '.join(chain)}", dict(detail, expected=[v for _, v in ibys], got=vals))
-            continue
-        okeys = [kk for kk, _ in orec]
-        for kk, v in ibys:
-            checked += 1
-            if noncanonical_number(v):
-                nontriv = True
-            if kk not in od:
-                add_violation(res, dict(sig_base, kind="lost"), f"bystander field {kk} of record {idv} is missing after {' '.join(chain)}",
-                              dict(detail, expected=v, got=orec))
-            elif od[kk] != v:
-                cls = value_class(v)
-                add_violation(res, dict(sig_base, kind="text", cls=cls),
-                              f"bystander {kk}={v!r} of record {idv} came out as {od[kk]!r} after {' '.join(chain)}"
-                              f" ({ifmt}->{ofmt} {flag or 'default'})", dict(detail, expected=v, got=od[kk]))
-        want_order = [kk for kk, _ in ibys if kk in od]
-        got_order = [kk for kk in okeys if kk in dict(ibys)]
-        seen = set()
-        got_order = [kk for kk in got_order if not (kk in seen or seen.add(kk))]
-        if want_order != got_order:
-            add_violation(res, dict(sig_base, kind="order"), f"bystander fields of record {idv} changed relative order after {' '.join(chain)}",
-                          dict(detail, expected=want_order, got=got_order))
+        bump(res, "side_files_compared")
+        judge(fo, "file")
+    checked, nontriv = st["checked"], st["nontriv"]
     bump(res, "bystander_values_checked", checked)
     bump(res, "verbs_used", 0)
     res["stats"]["tags"] = list(set(tags))
@@ -474,6 +583,17 @@ def chain_case(case):
     if case.get("sample"):
         res["sample"] = {"monitor": "a", "argv": argv, "stdin": stdin[:400], "bystander_values_checked": checked}
     return res
+
+
+def _json_ok(s):
+    return value_class(s) != "invalid-utf8" and not re.search(r"[\x00-\x1f\x7f]", s)
+
+
+def _write_any(fmt, recs):
+    if fmt == "json":
+        return "".join("{" + ", ".join(json.dumps(k) + ": " + (v if JSON_NUM.match(v) else json.dumps(v, ensure_ascii=False))
+                                       for k, v in r) + "}\n" for r in recs)
+    return write_input(fmt, recs)
 
 
 # ------------------------------------------------------------------------------------------
@@ -540,14 +660,25 @@ def function_table():
     out = {}
     for line in r.out.split("\n"):
         m = re.match(r"^(\S+)\s+\(class=(\S+) #args=([^)]+)\)", line)
-        if m and re.match(r"^[a-z_][a-z_0-9]*$", m.group(1)):
+        if m and (re.match(r"^[a-z_][a-z_0-9]*$", m.group(1)) or m.group(1) in OPERATOR_FORMS):
             out[m.group(1)] = (m.group(2), m.group(3))
+    if out:
+        # indexing / slicing / positional names are syntax, not table entries
+        out.setdefault("[]", ("indexing", "2"))
+        out.setdefault("[[]]", ("indexing", "1"))
     return out
 
 
 def forms_for(name, args):
     if name in EXCLUDE_FUNCS:
         return []
+    if name in OPERATOR_FORMS:
+        out = []
+        for f in OPERATOR_FORMS[name]:
+            g = _subst(f, X="$x", Y="$y")
+            if g not in out:
+                out.append(g)
+        return out
     if name in HOF_FORMS:
         return HOF_FORMS[name]
     if name in SAFE_FORMS:
@@ -607,22 +738,44 @@ def sweep_case(case):
     todo = [list(range(len(lines)))]
     tried_single = 0
     failed_single = 0
+    hangs = crashes = 0
     while todo:
         idxs = todo.pop()
         r, argv, stdin = _sweep_run(res, flag, prog, [lines[i] for i in idxs])
-        if r.verdict in ("slow", "cpu", "output-cap", "deadlock"):
-            # resource behaviour of the function itself is C18's subject
-            res["skipped"] += len(idxs)
-            bump(res, "rows_skipped_resource", len(idxs))
+        if r.verdict == "slow":
+            res["inconc"] += 1
             continue
-        if r.rc != 0:
+        if r.verdict in ("cpu", "output-cap", "deadlock"):
+            # a function that does not come back from one small value: bisect to the row, then report it
+            if len(idxs) > 1 and hangs < 2:
+                mid = len(idxs) // 2
+                todo.append(idxs[:mid])
+                todo.append(idxs[mid:])
+                continue
+            hangs += 1
             if len(idxs) == 1:
-                res["skipped"] += 1
+                add_violation(res, {"monitor": "sweep", "f": name, "kind": "hang", "verdict": r.verdict, "flag": flag or "default"},
+                              f"`{prog}` on the one record {stdin.strip()!r} does not finish ({r.verdict})",
+                              {"argv": argv, "stdin": stdin, "env": ENV, "got": r.err[-1500:]})
+            else:
+                res["skipped"] += len(idxs)
+                bump(res, "rows_skipped_resource", len(idxs))
+            continue
+        if r.rc != 0 or r.crashed():
+            if len(idxs) == 1:
                 tried_single += 1
                 failed_single += 1
-                bump(res, "rows_rejected")
                 if r.crashed():
                     bump(res, "rows_crashed")
+                    first = next((ln for ln in r.err.splitlines() if "panic" in ln or "fatal error" in ln), r.err.strip()[:160])
+                    if crashes < 2:
+                        add_violation(res, {"monitor": "sweep", "f": name, "kind": "crash", "flag": flag or "default"},
+                                      f"`{prog}` on the one record {stdin.strip()!r} crashes: {first[:160]}",
+                                      {"argv": argv, "stdin": stdin, "env": ENV, "got": r.err[:2000]})
+                    crashes += 1
+                else:
+                    res["skipped"] += 1
+                    bump(res, "rows_rejected")
                 continue
             if len(idxs) == len(lines):
                 # does the form reject everything (wrong arity/type for any input)? probe three rows
@@ -686,6 +839,483 @@ def sweep_case(case):
 
 
 # ------------------------------------------------------------------------------------------
+# operators (the function table's names that are not identifiers) - shared by the sweeps f and c.  X, Y, Z are
+# replaced by field references.  `./` and `//` etc. by a zero taken from data are C07/C18's subject: a crash is
+# still reported by the sweeps, under its own signature.
+
+OPERATOR_FORMS = {
+    "+": ["X + Y", "X + 1", "+X"], "-": ["X - Y", "1 - X", "-X"], "*": ["X * Y", "X * 2"], "/": ["X / Y", "X / 2"],
+    "//": ["X // Y", "X // 2"], "**": ["X ** 2", "2 ** X", "X ** Y"], "%": ["X % Y", "X % 7"],
+    ".+": ["X .+ Y", "X .+ 1"], ".-": ["X .- Y", "1 .- X"], ".*": ["X .* Y", "X .* 2"], "./": ["X ./ 2", "X ./ Y"],
+    "<<": ["X << 1", "1 << X"], ">>": ["X >> 1", "X >> Y"], ">>>": ["X >>> 1", "X >>> Y"],
+    "&": ["X & Y", "X & 1"], "|": ["X | Y", "X | 1"], "^": ["X ^ Y", "X ^ 1"], "~": ["~X"], "!": ["!X"],
+    "&&": ["X && Y", "true && X"], "||": ["X || Y", "false || X"], "^^": ["X ^^ Y", "true ^^ X"],
+    "??": ["X ?? Y", "X ?? \"d\"", "@nosuch ?? X"], "???": ["X ??? Y", "X ??? \"d\"", "asserting_null(\"\") ??? X"],
+    "<": ["X < Y", "X < 3"], "<=": ["X <= Y", "3 <= X"], ">": ["X > Y", "X > \"a\""], ">=": ["X >= Y", "X >= 3"],
+    "==": ["X == Y", "X == X", "X == 1"], "!=": ["X != Y", "X != \"\""], "<=>": ["X <=> Y", "X <=> 1", "\"a\" <=> X"],
+    "=~": ["X =~ \"^(.)(.*)$\"", "X =~ Y", "X =~ \"^(.)\" && is_present(\"\\1\")"], "!=~": ["X !=~ \"^[0-9]+$\"", "X !=~ Y"],
+    ".": ["X . Y", "X . \"s\"", "\"\" . X"], "?:": ["true ? X : Y", "is_string(X) ? X : Y", "X == Y ? 1 : 2"],
+    "[]": ["X[1]", "X[-1]", "X[1:2]", "X[2:2]", "X[\"a\"]", "X[Y]"],
+    "[[]]": ["$[[2]]", "$[[[2]]]", "$*[\"x\"]", "mapexcept($*, \"id\")", "$*"],
+}
+
+
+def _subst(form, **kw):
+    return re.sub(r"\b([XYZ])\b", lambda m: kw.get(m.group(1), m.group(1)), form)
+
+
+# ------------------------------------------------------------------------------------------
+# (c) functions only read their arguments: JSON carrier, array- and map-valued fields
+
+from ..model import c03_coll as CO   # noqa: E402
+
+C_ARGS1 = [("$a",), ("$m",), ("$s",), ("$t",)]
+C_ARGS2 = [("$a", "$a"), ("$a", "$m"), ("$m", "$a"), ("$m", "$m"), ("$a", "$s"), ("$s", "$a"), ("$m", "$t"), ("$t", "$m"),
+           ("$a", "1"), ("$m", '"a"'), ("$a", '"."'), ("$m", '"."'), ("$a", "50"), ("$a", "[25, 75]"), ("$m", '["p25", "p75"]')]
+C_ARGS3 = [("$a", "$s", "$t"), ("$m", "$t", "$s"), ("$a", "1", "2"), ("$m", '"a"', '"y"'), ("$t", "$a", "$m"), ("$a", "$m", "$a"),
+           ('"p"', '":"', "$m"), ('"p"', '":"', "$a"), ("$m", '"="', '";"'), ("$a", '"="', '";"'),
+           ("$a", "[25, 75]", '{"interpolate_linearly": true, "output_array_not_map": true}'),
+           ("$m", "50", '{"array_is_final_sorted": true}')]
+C_SPECIAL = {
+    "apply": ["apply($a, func(e) {return e})", "apply($m, func(k,v) {return {k: v}})"],
+    "select": ["select($a, func(e) {return is_numeric(e)})", "select($m, func(k,v) {return is_numeric(v)})"],
+    "reduce": ["reduce($a, func(acc,e) {return e})", "reduce($m, func(acck,accv,ek,ev) {return {ek: ev}})"],
+    "fold": ["fold($a, func(acc,e) {return acc . \"\"}, \"\")", "fold($m, func(acck,accv,ek,ev) {return {ek: ev}}, {\"i\": 0})", "fold([1], func(acc,e) {return acc}, $a)"],
+    "sort": ["sort($a)", "sort($a, \"nr\")", "sort($a, \"f\")", "sort($a, \"c\")", "sort($a, \"t\")", "sort($m)", "sort($m, \"nr\")",
+             "sort($a, func(a,b) {return b <=> a})", "sort($m, func(ak,av,bk,bv) {return bv <=> av})", "sort($*)"],
+    "any": ["any($a, func(e) {return e == 1})", "any($m, func(k,v) {return v == 1})"],
+    "every": ["every($a, func(e) {return is_present(e)})", "every($m, func(k,v) {return is_present(v)})"],
+    "sort_by_key": ["sort_by_key($m)", "sort_by_key($a)", "sort_by_key($*)"],
+    "sort_by_value": ["sort_by_value($m)", "sort_by_value($a)", "sort_by_value($*)"],
+    "strrepeat": ["strrepeat($a, 2)", "strrepeat($m, 2)", "strrepeat(\"a\", $a)"],
+    "percentile": ["percentile($a, 50)", "percentile($m, 50)", "percentile($a, $s)", "percentile($a, \"p25\")", "percentile($a, $m)",
+                   "percentile($a, 25, {\"interpolate_linearly\": true})", "percentile($m, 75, {\"array_is_final_sorted\": true})"],
+    "percentiles": ["percentiles($a, [25, 75])", "percentiles($m, [25, 75])", "percentiles($a, [\"p25\", \"median\"])", "percentiles($a, $a)",
+                    "percentiles($a, $m)", "percentiles($a, [25, 75], {\"interpolate_linearly\": true, \"output_array_not_map\": true})",
+                    "percentiles($m, [50], {\"array_is_final_sorted\": true})"],
+    "unformat": ["unformat(\"{}:{}\", $a)", "unformat($a, $m)", "unformat($t, $a)"],
+    "matchx": [], "format_values": [], "exec": [], "system": [],
+}
+
+
+def coll_forms(name, args, quick):
+    """DSL expressions over the fields a (array), m (map), s (number), t (string) for one function-table entry."""
+    if name in EXCLUDE_FUNCS:
+        return []
+    if name in C_SPECIAL:
+        return C_SPECIAL[name]
+    if name in OPERATOR_FORMS:
+        out = []
+        for f in OPERATOR_FORMS[name]:
+            for x, y in (("$a", "$m"), ("$m", "$a"), ("$a", "$s"), ("$s", "$t")):
+                g = _subst(f, X=x, Y=y)
+                if g not in out:
+                    out.append(g)
+        return out
+    if not re.match(r"^[a-z_][a-z_0-9]*$", name):
+        return []
+    if name in SAFE_FORMS:
+        out = []
+        for f in SAFE_FORMS[name]:
+            for x, y in (("$a", "$m"), ("$m", "$a"), ("$s", "$t")):
+                g = f.replace("$x", x).replace("$y", y)
+                if g not in out:
+                    out.append(g)
+        return out
+    if name.startswith("asserting_"):
+        p = "is_" + name[len("asserting_"):]
+        return [f"IF:{p}({v}):{name}({v})" for v in ("$a", "$m", "$s", "$t")]
+    ar = set()
+    for a in re.split(r"[,-]", args):
+        a = a.strip()
+        if a == "variadic":
+            ar |= {1, 2, 3}
+        elif a.isdigit():
+            ar.add(int(a))
+    forms = []
+    if 1 in ar:
+        forms += [f"{name}({', '.join(t)})" for t in C_ARGS1]
+    if 2 in ar:
+        forms += [f"{name}({', '.join(t)})" for t in (C_ARGS2[:9] if quick else C_ARGS2)]
+        if quick:
+            forms += [f"{name}({', '.join(t)})" for t in C_ARGS2[9:] if name in ("percentile", "percentiles", "median", "flatten", "unflatten",
+                                                                                 "joink", "joinv", "haskey", "hasvalue", "mapexcept", "mapselect")]
+    if 3 in ar:
+        forms += [f"{name}({', '.join(t)})" for t in (C_ARGS3[:6] if quick else C_ARGS3)]
+        if quick:
+            forms += [f"{name}({', '.join(t)})" for t in C_ARGS3[6:] if name in ("percentile", "percentiles", "median", "flatten", "joinkv")]
+    if 4 in ar:
+        forms += [f"{name}($a, $m, $s, $t)", f"{name}($m, 1, 2, 3)"]
+    if 5 in ar:
+        forms += [f"{name}($a, $m, $s, $t, $a)"]
+    return forms
+
+
+def _coll_program(form):
+    # the result is stored in a new field (so it is copied out of whatever the function returned), then replaced by its
+    # type name so that error / absent / function values cannot make the output unparseable
+    if form.startswith("IF:"):
+        _, cond, call = form.split(":", 2)
+        return f"if ({cond}) {{ $new = {call}; $new = typeof($new) }}"
+    return f"$new = {form}; $new = typeof($new)"
+
+
+def _change_class(want, got):
+    """What kind of difference: used in the signature so that known defects can be pinned narrowly."""
+    if isinstance(want, list) and isinstance(got, list) and not isinstance(want, CO.Pairs) and not isinstance(got, CO.Pairs):
+        if len(want) == len(got) and sorted(map(CO.encode, want)) == sorted(map(CO.encode, got)):
+            return "array-reordered"
+        return "array-elements-changed"
+    if isinstance(want, CO.Pairs) and isinstance(got, list) and not isinstance(got, CO.Pairs):
+        return "map-became-array"
+    if isinstance(want, CO.Pairs) and isinstance(got, CO.Pairs):
+        wk, gk = [k for k, _ in want], [k for k, _ in got]
+        if wk != gk:
+            if sorted(wk) == sorted(gk):
+                return "map-reordered"
+            if set(wk) < set(gk):
+                return "map-keys-added"
+            if set(gk) < set(wk):
+                return "map-keys-lost"
+            return "map-keys-changed"
+    if isinstance(want, (CO.Pairs, list)) != isinstance(got, (CO.Pairs, list)):
+        return "kind-changed"
+    if isinstance(want, CO.Num) and isinstance(got, CO.Num):
+        return "number-text"
+    if type(want) is not type(got):
+        return "type-changed"
+    return "text"
+
+
+def _input_class(v):
+    """Features of a structured input value that known defects depend on (evaluated on the witness field itself)."""
+    feats = set()
+
+    def walk(x, top):
+        if isinstance(x, CO.Pairs):
+            ks = [k for k, _ in x]
+            if any("." in k for k in ks):
+                feats.add("dotted-key")
+            if not top and ks and ks == [str(i + 1) for i in range(len(ks))]:
+                feats.add("nested-intkey-map")
+            for _, y in x:
+                walk(y, False)
+        elif isinstance(x, list):
+            for y in x:
+                walk(y, False)
+    walk(v, True)
+    return "+".join(sorted(feats)) or "plain"
+
+
+def _flat_change_class(want, got):
+    wk, gk = [k for k, _ in want], [k for k, _ in got]
+    if wk == gk:
+        return "flat-text"
+    if sorted(wk) == sorted(gk):
+        return "flat-reordered"
+    if set(wk) < set(gk):
+        return "flat-keys-added"
+    if set(gk) < set(wk):
+        return "flat-keys-lost"
+    return "flat-keys-changed"
+
+
+def _locate(want, got):
+    """Descend to the innermost differing pair of values -> (path, want_sub, got_sub)."""
+    path = ""
+    while True:
+        if isinstance(want, CO.Pairs) and isinstance(got, CO.Pairs) and [k for k, _ in want] == [k for k, _ in got]:
+            for (k, a), (_, b) in zip(want, got):
+                if CO.first_difference(a, b) is not None:
+                    want, got, path = a, b, (path + "." + k if path else k)
+                    break
+            else:
+                return path, want, got
+            continue
+        if isinstance(want, list) and isinstance(got, list) and not isinstance(want, CO.Pairs) and not isinstance(got, CO.Pairs) \
+                and len(want) == len(got):
+            diffs = [i for i, (a, b) in enumerate(zip(want, got)) if CO.first_difference(a, b) is not None]
+            if len(diffs) == 1:
+                i = diffs[0]
+                want, got, path = want[i], got[i], f"{path}[{i+1}]"
+                continue
+        return path, want, got
+
+
+def _coll_eval(res, forms, flag, mode, recs, lines):
+    """Run one process evaluating every form of `forms` (list of (function name, form)) on every record.
+    -> (violations as (sig, what, detail), non-trivial keys, status) with status in ok | rejected | inconclusive."""
+    prog = "; ".join(_coll_program(f) for _, f in forms)
+    name = "+".join(sorted({n for n, _ in forms}))
+    oflags = ["--ojson"] if mode == "json" else ["--odkvp", "--flatsep", ":"]
+    argv = ([flag] if flag else []) + ["--ijson"] + oflags + ["put", prog]
+    viols, nt = [], []
+    stdin = "".join(lines)
+    r = R.mlr(argv, stdin=stdin, env=ENV, cpu_s=8, watchdog=40.0)
+    bump(res, "c_processes")
+    detail = {"argv": argv, "stdin": stdin, "env": ENV}
+    sig0 = {"monitor": "coll", "f": name, "flag": flag or "default", "mode": mode}
+    if r.verdict == "slow":
+        return viols, nt, "inconclusive"
+    if r.verdict != "exited" or r.crashed():
+        kind = "crash" if r.crashed() else "hang"
+        first = r.err.strip().splitlines()[0][:160] if r.err.strip() else ""
+        viols.append((dict(sig0, kind=kind), f"`{prog}` on {len(lines)} small JSON records: {kind} ({r.verdict}, rc={r.rc}, signal={r.signal}): {first}",
+                      dict(detail, got=r.err[:1500])))
+        return viols, nt, "ok"
+    if r.rc != 0:
+        return viols, nt, "rejected"
+    out = CO.decode_records(r.out) if mode == "json" else parse_output("dkvp", r.out)
+    if out is None or len(out) != len(recs):
+        viols.append((dict(sig0, kind="unparseable-output" if out is None else "record-count"),
+                      f"`{prog}`: output is not {len(recs)} well-formed records", dict(detail, got=r.out[:3000])))
+        return viols, nt, "ok"
+    for i, (irec, orec) in enumerate(zip(recs, out)):
+        res["evals"] += 1
+        if mode == "json":
+            got = CO.Pairs((k, v) for k, v in orec if k != "new")
+            extra = [k for k, _ in orec if k == "new"]
+            d = CO.first_difference(irec, got)
+            if d is None and len(extra) <= 1 and (not extra or orec[-1][0] == "new"):
+                nt.append(_h("c", prog, flag, mode, CO.encode(irec)))
+                continue
+            if d is None:
+                viols.append((dict(sig0, kind="position"), f"`{prog}`: the new field is not the last one", dict(detail, got=CO.encode(orec))))
+                continue
+            path, w, g = _locate(irec, got)
+            fld = re.split(r"[.\[{]", path)[0] if path else "?"
+            ch = _change_class(w, g)
+            viols.append((dict(sig0, kind="arg-modified", field=fld, change=ch, input=_input_class(dict(irec).get(fld))),
+                          f"`{prog}` changed field {fld}, which it only reads: at {path or '(record keys)'} {ch}: "
+                          f"{CO.encode(w)[:120]} came out as {CO.encode(g)[:120]} (record {irec[0][1]}, --ijson --ojson {flag})",
+                          dict(detail, stdin=lines[i], expected=CO.encode(irec), got=CO.encode(got))))
+        else:
+            want = CO.flatten_record(irec, ":")
+            got = [(k, v) for k, v in orec if not (k == "new" or k.startswith("new:"))]
+            ok = len(want) == len(got) and all(wk == gk and (wv is CO.ANY or wv == gv) for (wk, wv), (gk, gv) in zip(want, got))
+            if ok:
+                nt.append(_h("c", prog, flag, mode, CO.encode(irec)))
+                continue
+            j = next((n for n, ((wk, wv), (gk, gv)) in enumerate(zip(want, got)) if wk != gk or (wv is not CO.ANY and wv != gv)),
+                     min(len(want), len(got)))
+            w = want[j] if j < len(want) else None
+            g = got[j] if j < len(got) else None
+            fld = (w or g or ("?", ""))[0].split(":")[0]
+            ch = _flat_change_class([x for x in want if x[0].split(":")[0] == fld], [x for x in got if x[0].split(":")[0] == fld])
+            viols.append((dict(sig0, kind="arg-modified", field=fld, change=ch, input=_input_class(dict(irec).get(fld))),
+                          f"`{prog}` changed field {fld}, which it only reads: flattened {w!r} came out as {g!r} (record {irec[0][1]}, "
+                          f"--ijson --odkvp {flag})",
+                          dict(detail, stdin=lines[i], expected=[list(x) for x in want if x[1] is not CO.ANY], got=got)))
+    return viols, nt, "ok"
+
+
+def coll_case(case):
+    rng = random.Random(case["seed"])
+    forms, flag, mode = [tuple(f) for f in case["forms"]], case["flag"], case["mode"]
+    res = case_result(_h("c", forms, flag, mode, case["tier"]), nontrivial=False, evals=0)
+    recs = CO.records(rng, flat_safe=(mode == "flat"))
+    lines = [CO.encode(r) + "\n" for r in recs]
+    nt = []
+    swept = set()
+
+    def one(fs):
+        """Judge the forms fs together; on any trouble judge them one by one, then (a rejecting form) record by record."""
+        viols, k, st = _coll_eval(res, fs, flag, mode, recs, lines)
+        if st == "inconclusive":
+            res["inconc"] += 1
+            return
+        if st == "ok" and not viols:
+            nt.extend(k)
+            swept.update(n for n, _ in fs)
+            return
+        if len(fs) > 1:
+            n0 = len(res["viol"])
+            for f in fs:
+                one([f])
+            if viols and len(res["viol"]) == n0:
+                # only the combination shows it: report the combination
+                for sig, what, detail in viols[:3]:
+                    add_violation(res, sig, what, detail)
+            return
+        if st == "ok":
+            swept.update(n for n, _ in fs)
+            seen = set()
+            for sig, what, detail in viols:
+                ks = json.dumps(sig, sort_keys=True)
+                if ks not in seen:          # one witness per (function, field, kind of change)
+                    seen.add(ks)
+                    add_violation(res, sig, what, detail)
+            return
+        # a single form that exits non-zero: the function rejects some argument kinds fatally (documented for asserting_*,
+        # strict type checks).  Which records?  Probe first/last; if both are rejected the form rejects this argument kind.
+        ok_rows = 0
+        probe = [0, len(recs) - 1] if not case.get("exhaustive_rows") else list(range(len(recs)))
+        for i in probe:
+            v1, k1, st1 = _coll_eval(res, fs, flag, mode, [recs[i]], [lines[i]])
+            if st1 == "ok":
+                ok_rows += 1
+                nt.extend(k1)
+                for sig, what, detail in v1:
+                    add_violation(res, sig, what, detail)
+        res["skipped"] += len(recs) - ok_rows
+        if ok_rows == 0:
+            bump(res, "c_forms_rejecting")
+            res.setdefault("rejected_forms", []).append(fs[0][1])
+        else:
+            swept.update(n for n, _ in fs)
+
+    one(forms)
+    res["nontrivial_keys"] = nt[:60]
+    res["nontrivial"] = bool(nt)
+    res["stats"]["c_functions_swept"] = sorted(swept)
+    if case.get("sample"):
+        res["sample"] = {"monitor": "c", "program": "; ".join(_coll_program(f) for _, f in forms), "flag": flag, "mode": mode,
+                         "first_record": lines[0][:300]}
+    return res
+
+
+# ------------------------------------------------------------------------------------------
+# (w) chains that change names / order / width of records around the 12-field key-index threshold, then reach by name
+
+from ..model import c03_wide as WI   # noqa: E402
+
+_W_ID = re.compile(r"^Q[A-J]+Q$")
+
+
+def _w_id(i):
+    return "Q" + "".join(chr(65 + int(d)) for d in str(i)) + "Q"
+
+
+W_WIDTHS = [10, 11, 11, 12, 12, 12, 13, 13, 14, 16, 25]
+
+
+def wide_case(case):
+    rng = random.Random(case["seed"])
+    ifmt = rng.choice(["dkvp", "dkvp", "dkvp", "json", "csv"])
+    ofmt = rng.choice(["dkvp", "dkvp", "json"])
+    flag = rng.choice(FLAGS)
+    batch = rng.choice([None, None, "1", "2"])
+    res = case_result(_h("w", case["seed"]), nontrivial=False, evals=0)
+    pool = [s for s in case["spellings"] if spelling_ok(s, "dkvp", "in") and spelling_ok(s, "csv", "in") and ";" not in s
+            and "=" not in s and not _W_ID.match(s)]
+    if "json" in (ifmt, ofmt):
+        # JSON text cannot carry bytes that are not UTF-8, and control characters travel as escapes (C01's subject)
+        pool = [s for s in pool if value_class(s) != "invalid-utf8" and not re.search(r"[\x00-\x1f\x7f]", s)]
+    try_n = 0
+    while True:
+        try_n += 1
+        nrec = rng.choice([3, 5, 8])
+        uniform = rng.choice(W_WIDTHS) if ifmt == "csv" or rng.random() < 0.3 else None
+        recs = []
+        for i in range(nrec):
+            w = uniform or rng.choice(W_WIDTHS)
+            fields = [(f"f{j+1}", rng.choice(pool)) for j in range(w - 3)]
+            fields.insert(rng.randint(0, len(fields)), ("o", rng.choice(["p;q", "r", "s;t;u", "q;1e5"])))
+            fields.insert(rng.randint(0, len(fields)), ("t", str(rng.randint(0, 2000000000))))
+            fields.insert(rng.randint(0, min(3, len(fields))) if rng.random() < 0.7 else rng.randint(0, len(fields)), ("id", _w_id(i)))
+            if ifmt == "csv" and recs:
+                # one header: same names in the same order as the first record
+                fields = [(k, dict(fields)[k]) for k, _ in recs[0]]
+            recs.append(fields)
+        built = WI.build_chain(rng, recs, lambda v: bool(_W_ID.match(v)), rng.choice([2, 2, 3]))
+        if built is not None or try_n >= 5:
+            break
+    if built is None:
+        res["skipped"] += 1
+        return res
+    chain, tags, model = built
+    if ifmt == "json":
+        stdin = "".join("{" + ", ".join(json.dumps(k) + ": " + (v if JSON_NUM.match(v) else json.dumps(v, ensure_ascii=False))
+                                        for k, v in r) + "}\n" for r in recs)
+    else:
+        stdin = write_input(ifmt, recs)
+    oflags = ["--ojsonl", "--no-auto-unflatten", "--no-auto-flatten"] if ofmt == "json" else ["--odkvp"]
+    iflags = ["--ijson"] if ifmt == "json" else IFLAG[ifmt]
+    argv = ([flag] if flag else []) + (["--records-per-batch", batch] if batch else []) + iflags + oflags + chain
+    r = R.mlr(argv, stdin=stdin, env=ENV)
+    detail = {"argv": argv, "stdin": stdin, "env": ENV}
+    sig0 = {"monitor": "wide", "verbs": "+".join(tags), "ifmt": ifmt, "ofmt": ofmt}
+    widths = sorted({len(x) for x in recs})
+    if r.verdict == "slow":
+        res["inconc"] += 1
+        return res
+    res["evals"] = 1
+    if not r.ok:
+        kind = "crash" if r.crashed() else ("hang" if r.verdict != "exited" else "chain-fails")
+        add_violation(res, dict(sig0, kind=kind), f"`mlr {' '.join(argv)}` on {len(recs)} records of widths {widths}: {kind} "
+                      f"(verdict {r.verdict}, rc={r.rc}): {r.err.strip()[:200]}", dict(detail, got=r.err[:2000]))
+        return res
+    if ofmt == "json":
+        dec = CO.decode_records(r.out)
+        out = None if dec is None else [[(k, v) for k, v in rec] for rec in dec]
+    else:
+        out = parse_output("dkvp", r.out)
+    if out is None:
+        add_violation(res, dict(sig0, kind="unparseable-output"), f"output of {' '.join(chain)} is not well-formed {ofmt}", dict(detail, got=r.out[:3000]))
+        return res
+    byid = {}
+    for orec in out:
+        idv = next((str(v) for _, v in orec if isinstance(v, str) and _W_ID.match(v)), None)
+        byid.setdefault(idv, []).append(orec)
+    checked = 0
+    nontriv = False
+    for i, (irec, mrec) in enumerate(zip(recs, model)):
+        idv = _w_id(i)
+        got = byid.pop(idv, [])
+        if mrec is None:
+            if got:
+                add_violation(res, dict(sig0, kind="record-not-dropped"), f"record {idv} should have been filtered out by {' '.join(chain)}",
+                              dict(detail, got=got))
+            continue
+        if len(got) != 1:
+            add_violation(res, dict(sig0, kind="record-lost" if not got else "record-duplicated", width=len(irec)),
+                          f"record {idv} ({len(irec)} fields) appears {len(got)} times after {' '.join(chain)} - its id field was not assigned by "
+                          f"any verb", dict(detail, expected=[[k, v] for k, v in mrec], got=got))
+            continue
+        orec = got[0]
+        okeys = [k for k, _ in orec]
+        mkeys = [k for k, _ in mrec]
+        crossing = (len(irec) >= 12) != (len(mrec) >= 12) or len(irec) >= 12
+        if okeys != mkeys:
+            unassigned = [k for k, v in mrec if v is not WI.ASSIGNED]
+            lost = [k for k in unassigned if k not in okeys]
+            extra = [k for k in okeys if k not in mkeys]
+            kind = "lost" if lost else ("extra-field" if extra else "order")
+            add_violation(res, dict(sig0, kind=kind, width=len(irec)),
+                          f"record {idv} ({len(irec)} fields in): after {' '.join(chain)} the field names are {okeys}, documented result {mkeys}"
+                          + (f" - unassigned field(s) {lost} missing" if lost else ""), dict(detail, expected=mkeys, got=okeys))
+            continue
+        for (k, mv), (_, ov) in zip(mrec, orec):
+            if mv is WI.ASSIGNED:
+                continue
+            checked += 1
+            if ofmt == "json":
+                if isinstance(ov, CO.Num):
+                    if not JSON_NUM.match(mv):
+                        continue        # a numeral that is not a legal JSON number is re-rendered: monitor j's subject
+                elif not isinstance(ov, str):
+                    ov = CO.encode(ov)
+            if noncanonical_number(mv) and crossing:
+                nontriv = True
+            if str(ov) != mv:
+                add_violation(res, dict(sig0, kind="text", cls=value_class(mv), width=len(irec)),
+                              f"record {idv} ({len(irec)} fields in): unassigned field {k}={mv!r} came out as {str(ov)!r} after {' '.join(chain)} "
+                              f"({ifmt}->{ofmt} {flag or 'default'})", dict(detail, expected=mv, got=str(ov)))
+    for idv, got in byid.items():
+        add_violation(res, dict(sig0, kind="unexpected-record"), f"output record(s) without a known id after {' '.join(chain)}",
+                      dict(detail, got=got[:3]))
+    bump(res, "w_runs")
+    bump(res, "w_values_checked", checked)
+    bump(res, "w_batch:" + (batch or "default"))
+    res["stats"]["w_tags"] = list(set(tags))
+    res["stats"]["w_widths"] = [str(w) for w in widths]
+    res["nontrivial"] = nontriv and checked > 0
+    if case.get("sample"):
+        res["sample"] = {"monitor": "w", "argv": argv, "stdin": stdin[:400], "values_checked": checked}
+    return res
+
+
+# ------------------------------------------------------------------------------------------
 # (j) the documented exception: JSON output re-renders exactly the numerals that are not legal JSON numbers
 
 J_CHAINS = [
@@ -725,42 +1355,97 @@ def allowed_values(s, flag=""):
     return out
 
 
+_YAML_LINE = re.compile(r'^(?:- |  )(?:"(id|x|tail)"|(id|x|tail)): (.*)$')
+
+
+def _yaml_token(tok):
+    """One-line YAML scalar as written by mlr --oyaml -> (is_quoted, text) or None if this monitor cannot read it."""
+    if tok.startswith('"') and tok.endswith('"') and len(tok) >= 2:
+        try:
+            return True, json.loads(tok)
+        except ValueError:
+            return None
+    if tok.startswith("'") and tok.endswith("'") and len(tok) >= 2:
+        return True, tok[1:-1].replace("''", "'")
+    if tok[:1] in "|>&*!%@`[{":
+        return None
+    return False, tok
+
+
 def json_case(case):
     chain, flag, S = case["chain"], case["flag"], case["spellings"]
-    res = case_result(_h("j", chain, flag), nontrivial=True, evals=0)
-    stdin = "".join(f"id=r{i},x={s},tail=0x0F\n" for i, s in enumerate(S))
-    argv = ([flag] if flag else []) + ["--idkvp", "--ojson"] + chain
+    ifmt, ofmt = case.get("ifmt", "dkvp"), case.get("ofmt", "json")
+    res = case_result(_h("j", chain, flag, ifmt, ofmt), nontrivial=True, evals=0)
+    if ifmt == "json":
+        S = [s for s in S if _json_ok(s)]
+        stdin = _write_any("json", [[("id", f"r{i}"), ("x", s), ("tail", "1.50")] for i, s in enumerate(S)])
+        tail = "1.50"
+    else:
+        stdin = "".join(f"id=r{i},x={s},tail=0x0F\n" for i, s in enumerate(S))
+        tail = "0x0F"
+    argv = ([flag] if flag else []) + IFLAG[ifmt] + ["--o" + ofmt] + chain
     r = R.mlr(argv, stdin=stdin, env=ENV)
     detail = {"argv": argv, "stdin": stdin, "env": ENV}
+    sig = {"monitor": "json", "flag": flag or "default", "verbs": chain[0], "ifmt": ifmt, "ofmt": ofmt}
     if r.verdict == "slow":
         res["inconc"] += 1
         return res
     if not r.ok:
-        res["skipped"] += 1
+        # every chain of J_CHAINS is total on this input: a failure is a finding, not an exclusion
+        kind = "crash" if r.crashed() else ("hang" if r.verdict != "exited" else "chain-fails")
+        add_violation(res, dict(sig, kind=kind), f"`mlr {' '.join(argv)}` on {len(S)} one-field records: {kind} (verdict {r.verdict}, rc={r.rc}): "
+                      f"{r.err.strip()[:200]}", dict(detail, got=r.err[:2000]))
+        res["evals"] = 1
         return res
     cur = None
     nt = []
-    seen_ids = set()
+    seen = {}
     for line in r.out.split("\n"):
-        m = re.match(r'^\s*"(id|x|tail)": (.*?),?$', line)
+        if ofmt == "json":
+            m = re.match(r'^\s*"(id|x|tail)": (.*?),?$', line)
+            k, tok = (m.group(1), m.group(2)) if m else (None, None)
+        else:
+            m = _YAML_LINE.match(line)
+            k, tok = (m.group(1) or m.group(2), m.group(3)) if m else (None, None)
         if not m:
             continue
-        k, tok = m.group(1), m.group(2)
         if k == "id":
             try:
-                cur = int(json.loads(tok)[1:])
+                cur = int((json.loads(tok) if ofmt == "json" else _yaml_token(tok)[1])[1:])
             except (ValueError, TypeError, IndexError):
                 cur = None
             continue
         if cur is None or cur >= len(S):
             continue
-        s = S[cur] if k == "x" else "0x0F"
+        s = S[cur] if k == "x" else tail
         res["evals"] += 1
-        seen_ids.add(cur)
-        sig = {"monitor": "json", "flag": flag or "default", "verbs": chain[0]}
+        seen.setdefault(cur, set()).add(k)
         if noncanonical_number(s):
-            nt.append(_h("j", chain, flag, s, k))
-        if tok.startswith('"'):
+            nt.append(_h("j", chain, flag, ifmt, ofmt, s, k))
+        if ofmt == "yaml":
+            yt = _yaml_token(tok)
+            if yt is None:
+                res["skipped"] += 1
+                bump(res, "yaml_tokens_not_read")
+                continue
+            quoted, text = yt
+            if not quoted and text == s:
+                bump(res, "yaml_verbatim_plain_scalars")
+                continue
+            numeric_text = numeric_value(text) is not None or _INFNAN.match(text) or text in ("true", "false", "null", "~", "")
+            if quoted or not (JSON_NUM.match(text) or numeric_text):
+                # a string scalar (plain or quoted): must be the input text
+                try:
+                    s.encode("utf-8")
+                except UnicodeEncodeError:
+                    continue
+                bump(res, "yaml_strings")
+                if text != s and not (not quoted and text.strip() == s.strip() and s != s.strip()):
+                    add_violation(res, dict(sig, kind="yaml-string-changed", cls=value_class(s)),
+                                  f"--oyaml: field {k}={s!r} came out as the string scalar {tok}", dict(detail, expected=s, got=tok))
+                continue
+            tok = text
+        elif tok.startswith('"'):
             try:
                 dec = json.loads(tok)
             except ValueError:
@@ -775,18 +1460,28 @@ def json_case(case):
                 add_violation(res, dict(sig, kind="json-string-changed", cls=value_class(s)),
                               f"--ojson: field {k}={s!r} came out as the string {tok}", dict(detail, expected=s, got=tok))
             continue
+        o = "--o" + ofmt
         if JSON_NUM.match(s):
             bump(res, "json_verbatim_numerals")
             if tok != s:
-                add_violation(res, dict(sig, kind="json-legal-numeral-rewritten", value=s),
-                              f"--ojson: {k}={s} is a legal JSON number but came out as {tok}", dict(detail, expected=s, got=tok))
+                vs, vt = numeric_value(s), numeric_value(tok)
+                # decimal integers beyond 64 bits are floats (C06): compared as doubles
+                exact_int = isinstance(vs, int) and -2 ** 63 <= vs < 2 ** 63 and flag != "-A"      # -A: ints are cast to float
+                try:
+                    same = vs is not None and vt is not None and (vt == vs if exact_int else float(vt) == float(vs))
+                except OverflowError:
+                    same = False
+                add_violation(res, dict(sig, kind=ofmt + "-legal-numeral-rewritten", value=s if ofmt == "json" else None,
+                                        result="same-value" if same else "different-value",
+                                        cls="int" if isinstance(numeric_value(s), int) else "float"),
+                              f"{o}: {k}={s} is a legal JSON number but came out as {tok}", dict(detail, expected=s, got=tok))
             continue
         bump(res, "json_rerendered_numerals")
         allowed = allowed_values(s, flag)
         if not JSON_NUM.match(tok):
             add_violation(res, dict(sig, kind="json-bare-nonnumber"),
-                          f"--ojson: {k}={s!r} came out as the bare token {tok}, which is not a JSON number",
-                          dict(detail, expected="a JSON number or a JSON string", got=tok))
+                          f"{o}: {k}={s!r} came out as the bare token {tok}, which is not a JSON number",
+                          dict(detail, expected="a JSON number or a string", got=tok))
             continue
         if not allowed:
             res["skipped"] += 1      # the binary takes it for a number, this monitor's grammar does not: C06's subject
@@ -803,7 +1498,14 @@ def json_case(case):
             return t == a
         if not any(eq(tv, a) for a in allowed):
             add_violation(res, dict(sig, kind="json-rerender-value"),
-                          f"--ojson: {k}={s} was re-rendered as {tok}, a different number", dict(detail, expected=sorted(map(str, allowed)), got=tok))
+                          f"{o}: {k}={s} was re-rendered as {tok}, a different number", dict(detail, expected=sorted(map(str, allowed)), got=tok))
+    # every input record must have come out, with both of its fields (all J_CHAINS carry every record)
+    missing = [i for i in range(len(S)) if seen.get(i, set()) != {"x", "tail"}]
+    if missing:
+        i = missing[0]
+        add_violation(res, dict(sig, kind="record-or-field-missing"),
+                      f"{o}: {len(missing)} of {len(S)} input records did not come out with both fields x and tail after {' '.join(chain)}; "
+                      f"first: id=r{i} x={S[i]!r} (seen: {sorted(seen.get(i, ()))})", dict(detail, expected=f"r{i} with x and tail", got=r.out[:1500]))
     res["nontrivial_keys"] = nt
     if case.get("sample"):
         res["sample"] = {"monitor": "j", "argv": argv, "spellings": len(S), "cells": res["evals"]}
@@ -826,14 +1528,14 @@ def run(chk):
                 "is not what Miller prints for that number (0xff, 1.500, +5, 1e5 ...) and the chain/function read it; distinct = by "
                 "(monitor, seed / function form / chain, flag, spelling).")
     if not only or "a" in only:
-        n = 900 if q else 14000
+        n = 600 if q else 14000
         cases = [{"seed": f"{chk.seed}/a/{i}", "tier": tier, "spellings": spell if q else spell[:600], "sample": i == 3}
                  for i in range(n)]
         # every input format x every non-JSON output format x every flag at least once
         k = 0
         for ifmt in IFLAG:
             for ofmt in OFLAG:
-                for flag in FLAGS:
+                for flag in AFLAGS:
                     for rep in range(1 if q else 6):
                         cases.append({"seed": f"{chk.seed}/agrid/{k}", "tier": tier, "spellings": spell[:600], "ifmt": ifmt,
                                       "ofmt": ofmt, "flag": flag})
@@ -854,6 +1556,8 @@ def run(chk):
             for form in forms_for(name, args):
                 nforms += 1
                 flags = FLAGS if not q else ["", FLAGS[1 + (idx + chk.seed) % 3]]
+                if q and name in OPERATOR_FORMS:
+                    flags = [FLAGS[(idx + nforms + chk.seed) % 4]]
                 for flag in flags:
                     cases.append({"f": name, "form": form, "flag": flag, "spellings": sp, "tier": tier,
                                   "sample": name == "abs" and flag == ""})
@@ -865,10 +1569,48 @@ def run(chk):
         chk.extra["function_forms_rejecting_every_row"] = sorted({r["rejected_form"] for r in results if r.get("rejected_form")})
         chk.extra["functions_swept"] = len(chk.stats.get("functions_swept", ()))
         chk.stats.pop("functions_swept", None)
+    if not only or "c" in only:
+        ft = function_table()
+        allforms = [(name, form) for name, (cls, args) in sorted(ft.items()) for form in coll_forms(name, args, q)]
+        chk.extra["collection_forms"] = len(allforms)
+        # several forms share one process (a violation is re-run form by form for attribution); neighbours in the list
+        # are forms of the same function, so stride the list to mix functions within a group
+        per = 6 if q else 3
+        ngroups = (len(allforms) + per - 1) // per
+        groups = [allforms[g::ngroups] for g in range(ngroups)]
+        cases = []
+        for gi, grp in enumerate(groups):
+            # quick: one inference flag and one output mode per group, both rotating with the seed; thorough: all
+            combos = [(FLAGS[(gi + chk.seed) % 4] if gi % 2 else "", ("json", "flat")[(gi // 2 + chk.seed) % 2])] if q \
+                else [(fl, mo) for fl in FLAGS for mo in ("json", "flat")]
+            for flag, mode in combos:
+                cases.append({"forms": grp, "flag": flag, "mode": mode, "tier": tier,
+                              "seed": f"{chk.seed}/c/{gi % 7}/{mode}", "sample": gi == 0})
+        results = chk.pmap(coll_case, cases, chunksize=2, label="c functions only read collections")
+        chk.extra["collection_functions_swept"] = len(chk.stats.get("c_functions_swept", ()))
+        chk.stats.pop("c_functions_swept", None)
+        rej = sorted({f for r in results for f in r.get("rejected_forms", ())})
+        chk.extra["collection_forms_rejecting_every_record"] = rej[:80]
+        if len(rej) * 4 > len(allforms):
+            chk.exceptions.append(("monitor c", f"{len(rej)} of {len(allforms)} forms were rejected outright - the monitor decided nothing"))
+    if not only or "w" in only:
+        n = 220 if q else 6000
+        cases = [{"seed": f"{chk.seed}/w/{i}", "tier": tier, "spellings": spell[:600], "sample": i == 1} for i in range(n)]
+        chk.pmap(wide_case, cases, chunksize=8, label="w wide-record chains")
+        chk.extra["wide_verbs_exercised"] = sorted(chk.stats.pop("w_tags", ()))
+        chk.extra["wide_input_widths"] = sorted(chk.stats.pop("w_widths", ()), key=int)
     if not only or "j" in only:
         S = json_set()
         cases = [{"chain": ch, "flag": flag, "spellings": S, "sample": ch == ["cat"] and flag == ""}
                  for flag in FLAGS for ch in J_CHAINS]
+        # JSON as the input carrier (values created eagerly from JSON tokens), YAML as the other re-rendering writer
+        extra = [("json", "json"), ("dkvp", "yaml"), ("json", "yaml")]
+        for n, ch in enumerate(J_CHAINS):
+            for fi, flag in enumerate(FLAGS):
+                for ei, (ifmt, ofmt) in enumerate(extra):
+                    if q and (n + fi + ei + chk.seed) % 4:
+                        continue
+                    cases.append({"chain": ch, "flag": flag, "spellings": S, "ifmt": ifmt, "ofmt": ofmt})
         chk.pmap(json_case, cases, label="j json exception")
         chk.extra["json_fixed_set"] = len(S)
     chk.assumptions = [
